@@ -1107,7 +1107,7 @@ fn replay(path: &str) -> i32 {
     let pats: Vec<Vec<u8>> = field("patterns").split(',').filter(|s| !s.trim().is_empty() || field("patterns").contains("\"\"")).map(|s| unhex(s.trim().trim_matches('"'))).collect();
     let vals: Vec<u32> = field("values").split(',').filter(|s| !s.trim().is_empty()).map(|s| s.trim().parse().unwrap()).collect();
     let hay = unhex(&field("haystack"));
-    let extra_hays: Vec<Vec<u8>> = { let a = field("actual"); if a.starts_with("haystacks: ") { a["haystacks: ".len()..].split(',').map(|h| unhex(h.trim())).collect() } else { vec![] } };
+    let extra_hays: Vec<Vec<u8>> = { let a = field("actual"); if let Some(ix) = a.find("haystacks: ") { a[ix + "haystacks: ".len()..].split(',').map(|h| unhex(h.trim())).collect() } else { vec![] } };
     let utf8 = pats.iter().all(|p| std::str::from_utf8(p).is_ok());
     let st = Stats::new();
     let mut props = BTreeSet::new();
